@@ -175,6 +175,16 @@ impl PidFileLocking {
         Ok(())
     }
 
+    /// Removes `path`; `Ok(false)` if it no longer exists (another process cleaning up at the
+    /// same time may have removed it first).
+    fn remove_if_exists(path: &Path) -> io::Result<bool> {
+        match remove_file(path) {
+            Ok(()) => Ok(true),
+            Err(e) if e.kind() == io::ErrorKind::NotFound => Ok(false),
+            Err(e) => Err(e),
+        }
+    }
+
     /// Cleans up all stale lock files in the .lsp-locks directory
     /// Returns a vector of paths that were cleaned up
     pub fn cleanup_stale_files() -> io::Result<Vec<PathBuf>> {
@@ -202,14 +212,16 @@ impl PidFileLocking {
                                 if !Self::is_pid_active(pid) {
                                     #[cfg(fuellabs_sway_verif)]
                                     verif::step("cleanup:remove", &path);
-                                    remove_file(&path)?;
-                                    cleaned_paths.push(path);
+                                    if Self::remove_if_exists(&path)? {
+                                        cleaned_paths.push(path);
+                                    }
                                 }
                             } else {
                                 #[cfg(fuellabs_sway_verif)]
                                 verif::step("cleanup:remove-unparsable", &path);
-                                remove_file(&path)?;
-                                cleaned_paths.push(path);
+                                if Self::remove_if_exists(&path)? {
+                                    cleaned_paths.push(path);
+                                }
                             }
                         }
                     }
